@@ -22,6 +22,21 @@ Theorem C02_element : forall a ta b tb r minlog t x y',
 Proof. exact pwrel_element. Qed.
 Print Assumptions C02_element.
 
+(* the inner codec of the log path stores the first elements (and every unpredictable one) with the exact-value codec, sized from the range
+   radius R and the median it is handed: inside that range it is within e, so C02_element applies to it ... *)
+Theorem C02_exact_codec_within_range : forall R e median x, 0 < e -> e <= R -> Rabs (x - median) <= R ->
+  Rabs (exact_codec R e median x - x) < e.
+Proof. exact exact_codec_within. Qed.
+Print Assumptions C02_exact_codec_within_range.
+
+(* ... and outside it is not: a value up to 3e beyond the radius (where the placeholder of the zeros lies when the range is taken before the
+   placeholders are set, defect e31086f) can come back more than 3e/2 away, i.e. on the other side of the zero threshold.  Hence the
+   obligation src_pwr_range_covers_placeholders in C02_source_facts. *)
+Theorem C02_exact_codec_outside_range_refuted :
+  exists R e v, 0 < e /\ e <= R /\ Rabs v <= R + 3 * e /\ Rabs (cut (keep R e) v - v) > 3 / 2 * e.
+Proof. exact cut_outside_range_refuted. Qed.
+Print Assumptions C02_exact_codec_outside_range_refuted.
+
 (* the constants, the fixed back end of the sign plane on both sides, the exact fallback for unresolvable ratios,
    the private copy and the range loop of the accelerated path are read from the source on every run *)
 Theorem C02_source_facts : pwr_source_facts_ok = true.
@@ -35,3 +50,7 @@ Proof. exact old_zero_edge_refuted. Qed.
 
 Example C02_ex : 0 < 0.5 /\ 1.5 + 1 < 3 /\ 1 < 1.5 /\ 4 <= 8 /\ 0 <= 4.
 Proof. lra. Qed.
+(* the hypotheses of C02_exact_codec_within_range are met by a log-domain range of radius 2.9 around the median 0.2 with e = log2 1.5 ~ 0.585
+   once it covers the placeholder -2.7 (the case of defect e31086f after the repair) *)
+Example C02_ex_codec : 0 < 0.585 /\ 0.585 <= 2.9 /\ Rabs (-2.7 - 0.2) <= 2.9.
+Proof. repeat split; try lra. rewrite Rabs_left by lra. lra. Qed.
